@@ -245,7 +245,12 @@ pub fn sections() -> Vec<Box<dyn Section>> {
             quick: 150_000,
             thorough: 5_000_000,
             strategy: Box::new(|_| {
-                let piece = prop_oneof![3 => gtext(0), 2 => select(&["/", ":", "//", "::", "/:", ":/", "@", "a", ""][..]).prop_map(str::to_string)];
+                let piece = prop_oneof![
+                    3 => gtext(0),
+                    2 => select(&["/", ":", "//", "::", "/:", ":/", "@", "a", ""][..]).prop_map(str::to_string),
+                    // spellings that ecosystems give a meaning to (module major versions, extras, scopes, classifiers)
+                    2 => select(&["v2", "/v2", "/v10", "v1", "/v0", "[extra]", "[a,b]", "requests[security]", "@scope", ".git", "go.mod", ":jar:sources", "@1.0", "#frag", "?q=1", "+incompatible"][..]).prop_map(str::to_string),
+                ];
                 (select(KNOWN_TYPES), proptest::collection::vec(piece, 0..=6))
                     .prop_map(|(ty, v)| Combined { ty: ty.into(), text: v.concat() })
                     .boxed()
